@@ -2,9 +2,12 @@ package main
 
 import (
 	"context"
+	"encoding/json"
 	"fmt"
 	"os"
+	"os/exec"
 	"path/filepath"
+	"runtime/debug"
 	"strings"
 	"sync"
 	"syscall"
@@ -105,7 +108,7 @@ func init() {
 		spec := &mc.Spec{
 			Level: "exploration",
 			Rule: "family 0: every traced path syscall × pointer kind for each path argument (NULL, unmapped, kernel half, odd, short string, 4095/4096/4097/8192 bytes without NUL, string ending exactly at / crossing into a PROT_NONE page) × dirfd encoding × {soft-ban-all, allow-all} policy, one operation per run; " +
-				"family 1: syscall numbers unknown / negative / with the x32 bit / above 2^32, and unreadable or short open_how; family 2: a fork+thread program where the main process, the child or the thread is SIGKILLed at the k-th tracer step (every Debug call index). " +
+				"family 1: syscall numbers unknown / negative / with the x32 bit / above 2^32, and unreadable or short open_how; family 2: a fork+thread program where the main process, the child or the thread is SIGKILLed at the k-th tracer step (every Debug call index); family 3: symbolic-link shapes in the work directory (self loop, 2- and 3-cycles, a cycle entered through a directory link, chains of 39/40/41/64 links, '.'-link nesting, a 4000-byte target) × path syscalls (following, non-following, two-path, exec) × policy, the tracer running in a helper process with a 64 MiB stack cap so that its death is observed. " +
 				"Oracle: the result is a verdict about the program, never Runner Error, and the run returns within the horizon. distinct = (case, observed status)",
 			Bound:       map[string]any{"pointer_kinds": ptrs, "dirfds": dirfds, "syscalls": len(c15syscalls)},
 			Assumptions: []string{"kill instants are exhaustive at tracer-step granularity (each Debug call of the tracer loop), not at instruction granularity"},
@@ -116,7 +119,9 @@ func init() {
 		spec.Init = func() error { devnull(); return nil }
 		spec.Fini = cleanupTmp
 		spec.Body = func(x *mc.X) {
-			switch x.Choose(3, "family") {
+			switch x.Choose(4, "family") {
+			case 3:
+				c15links(x)
 			case 0:
 				s := c15syscalls[x.Choose(len(c15syscalls), "syscall")]
 				p1 := ptrs[x.Choose(len(ptrs), "ptr")]
@@ -276,5 +281,140 @@ func c15kill(x *mc.X, tier string) {
 	}
 	if !c15verdicts[res.Status] {
 		x.Failf(fmt.Sprintf("C15/kill/%s:%s", statusName(res.Status), res.Error), "SIGKILL of %s process at tracer step %d: result %s %q is not a verdict about the program", victim, k, statusName(res.Status), res.Error)
+	}
+}
+
+// ---- family 3: symbolic-link shapes ---------------------------------------------------------------------------
+
+type c15shape struct {
+	name string
+	make func(dir string)
+	path string // the name the program uses (relative to the work dir)
+}
+
+var c15shapes = []c15shape{
+	{"self-loop", func(d string) { os.Symlink("loop", d+"/loop") }, "loop"},
+	{"two-cycle", func(d string) { os.Symlink("y", d+"/x"); os.Symlink("x", d+"/y") }, "x"},
+	{"three-cycle-absolute", func(d string) { os.Symlink(d+"/q", d+"/p"); os.Symlink("r", d+"/q"); os.Symlink(d+"/p", d+"/r") }, "p"},
+	{"cycle-below-directory-link", func(d string) {
+		os.Mkdir(d+"/dir", 0755)
+		os.Symlink("dir", d+"/dl")
+		os.Symlink("../dl/c2", d+"/dir/c1")
+		os.Symlink("c1", d+"/dir/c2")
+	}, "dl/c1/leaf"},
+	{"chain-39", func(d string) { c15chain(d, 39) }, "c0"},
+	{"chain-40", func(d string) { c15chain(d, 40) }, "c0"},
+	{"chain-41", func(d string) { c15chain(d, 41) }, "c0"},
+	{"chain-64", func(d string) { c15chain(d, 64) }, "c0"},
+	{"dot-link-nesting", func(d string) { os.Symlink(".", d+"/self"); os.WriteFile(d+"/file", []byte("x"), 0644) }, strings.Repeat("self/", 60) + "file"},
+	{"parent-link-nesting", func(d string) {
+		os.Mkdir(d+"/sub", 0755)
+		os.Symlink("..", d+"/sub/up")
+		os.WriteFile(d+"/file", []byte("x"), 0644)
+	}, strings.Repeat("sub/up/", 45) + "file"},
+	{"target-4000-bytes", func(d string) { os.Symlink(strings.Repeat("a/", 1999)+"zz", d+"/long") }, "long"},
+	{"dangling-into-cycle", func(d string) { os.Symlink("nowhere/../m2", d+"/m1"); os.Symlink("m1", d+"/m2") }, "m2"},
+}
+
+func c15chain(d string, n int) {
+	os.WriteFile(fmt.Sprintf("%s/c%d", d, n), []byte("end"), 0644)
+	for i := 0; i < n; i++ {
+		os.Symlink(fmt.Sprintf("c%d", i+1), fmt.Sprintf("%s/c%d", d, i))
+	}
+}
+
+var c15linkCalls = []struct{ name, line string }{
+	{"open", "X 2 $0 0 0"}, {"openat(O_NOFOLLOW)", "X 257 -100 $0 0x20000 0"}, {"openat(O_CREAT|O_WRONLY)", "X 257 -100 $0 0x41 0644"},
+	{"stat", "X 4 $0 0"}, {"lstat", "X 6 $0 0"}, {"readlink", "X 89 $0 0 0"}, {"unlink", "X 87 $0"},
+	{"rename(to)", "X 82 $1 $0"}, {"linkat(FOLLOW)", "X 265 -100 $0 -100 $1 0x400"}, {"execve", "X 59 $0 0 0"}, {"access", "X 21 $0 4"},
+}
+
+func c15links(x *mc.X) {
+	sh := c15shapes[x.Choose(len(c15shapes), "shape")]
+	call := c15linkCalls[x.Choose(len(c15linkCalls), "call")]
+	allow := x.Bool("allow-all")
+	x.Note("case", fmt.Sprintf("links %s, program calls %s on %.60q (policy: %s)", sh.name, call.name, sh.path, map[bool]string{true: "allow all", false: "soft-ban all"}[allow]))
+	if x.Dry() {
+		return
+	}
+	dir := tmpDir("c15l")
+	defer os.RemoveAll(dir)
+	os.Chmod(dir, 0755)
+	sh.make(dir)
+	script := "S " + sh.path + "\nS other-name\n" + call.line + "\nQ 0\n"
+	os.WriteFile(filepath.Join(dir, ".script"), []byte(script), 0644)
+	self, _ := os.Executable()
+	cmd := exec.Command(self, "c15run", dir, fmt.Sprint(allow))
+	var out strings.Builder
+	cmd.Stdout = &out
+	errf, _ := os.Create(filepath.Join(dir, ".stderr"))
+	cmd.Stderr = errf
+	cmd.SysProcAttr = &syscall.SysProcAttr{Setpgid: true, Pdeathsig: syscall.SIGKILL}
+	var werr error
+	if err := cmd.Start(); err != nil {
+		x.Failf("C15/harness", "helper: %v", err)
+		return
+	}
+	returned := withTimeout(horizon, func() { werr = cmd.Wait() })
+	errf.Close()
+	key := "links/" + sh.name
+	if !returned {
+		syscall.Kill(-cmd.Process.Pid, syscall.SIGKILL)
+		cmd.Wait()
+		x.Failf("C15/"+key+"/tracer-stuck", "links %s, %s: the run did not return within the horizon (the program itself only makes one system call)", sh.name, call.name)
+		x.Outcome("stuck")
+		return
+	}
+	var rep struct {
+		Status int
+		Error  string
+	}
+	if werr != nil || json.Unmarshal([]byte(out.String()), &rep) != nil {
+		tail, _ := os.ReadFile(filepath.Join(dir, ".stderr"))
+		first := strings.SplitN(strings.TrimSpace(string(tail)), "\n", 2)[0]
+		if len(first) > 120 {
+			first = first[:120]
+		}
+		x.Failf("C15/"+key+"/tracer-process-died", "links %s, %s: the process running the tracer ended with %v before reporting a result: %q", sh.name, call.name, werr, first)
+		x.Outcome("tracer-died")
+		return
+	}
+	st := runner.Status(rep.Status)
+	x.Note("result", fmt.Sprintf("%s %q", statusName(st), rep.Error))
+	x.Distinct(fmt.Sprint("links", sh.name, call.name, allow, st))
+	x.Outcome("links:" + statusName(st))
+	if !c15verdicts[st] {
+		x.Failf(fmt.Sprintf("C15/%s/%s:%s", key, statusName(st), rep.Error), "links %s, %s: result %s %q is not a verdict about the program", sh.name, call.name, statusName(st), rep.Error)
+	}
+}
+
+func init() {
+	// helper role: runs the script in <dir>/.script under the real ptrace runner with <dir> as the work directory and prints the result
+	aux["c15run"] = func(args []string) int {
+		if len(args) < 2 {
+			return 3
+		}
+		debug.SetMaxStack(64 << 20) // an unbounded recursion ends this helper quickly instead of eating a gigabyte first
+		dir := args[0]
+		var h ptrace.Handler = banAll{}
+		if args[1] == "true" {
+			h = allowHandler{}
+		}
+		sf, err := os.Open(filepath.Join(dir, ".script"))
+		if err != nil {
+			return 3
+		}
+		devnull()
+		ctx, cancel := context.WithTimeout(context.Background(), 30*time.Second)
+		defer cancel()
+		res := runPtrace(ctx, []string{probe("sysrun")}, func(r *ptrace.Runner) {
+			r.Files = []uintptr{sf.Fd(), devnull(), devnull()}
+			r.Seccomp = c15Filter()
+			r.Handler = h
+			r.WorkDir = dir
+		})
+		b, _ := json.Marshal(map[string]any{"Status": int(res.Status), "Error": res.Error})
+		os.Stdout.Write(b)
+		return 0
 	}
 }
